@@ -11,7 +11,7 @@ pub proof fn lemma_items_stop(ev: &Evaluator<'_>, slots: SlotEnv, e: Expr, n: na
 }
 /// the scan of the first n items when the first n evaluation results are all Ok
 pub proof fn lemma_items_prefix(ev: &Evaluator<'_>, slots: SlotEnv, e: Expr, rs: Seq<Result<PartialValue>>, n: nat)
-    requires e.expr_kind is Set || e.expr_kind is ExtensionFunctionApp,
+    requires e.expr_kind is Set || e.expr_kind is ExtensionFunctionApp || e.expr_kind is Record,
         rs.len() == node_items(e).len(), n <= rs.len(),
         forall|i: int| 0 <= i < rs.len() ==> agrees_pv(#[trigger] rs[i], sem(ev, slots, node_items(e)[i])),
         forall|j: int| 0 <= j < n ==> (#[trigger] rs[j]) is Ok,
@@ -21,15 +21,22 @@ pub proof fn lemma_items_prefix(ev: &Evaluator<'_>, slots: SlotEnv, e: Expr, rs:
     }
     decreases n
 {
+    broadcast use axiom_btreemap_order_ok;
     if n > 0 {
         lemma_items_prefix(ev, slots, e, rs, (n - 1) as nat);
+        if e.expr_kind is Record {
+            let m = *e.expr_kind->Record_0;
+            assert(m.order_ok());
+            assert(m@.dom().contains(m.key_order()[n - 1]));
+            assert(node_items(e)[n - 1] == m@[m.key_order()[n - 1]]);
+        }
         assert(rs[n - 1] is Ok);
         assert(agrees_pv(rs[n - 1], sem(ev, slots, node_items(e)[n - 1])));
     }
 }
 /// what `collect::<Result<Vec<_>>>()` of the item results means for the semantics of the whole list
 pub proof fn lemma_items(ev: &Evaluator<'_>, slots: SlotEnv, e: Expr, rs: Seq<Result<PartialValue>>, c: Result<Vec<PartialValue>>)
-    requires e.expr_kind is Set || e.expr_kind is ExtensionFunctionApp,
+    requires e.expr_kind is Set || e.expr_kind is ExtensionFunctionApp || e.expr_kind is Record,
         rs.len() == node_items(e).len(),
         forall|i: int| 0 <= i < rs.len() ==> agrees_pv(#[trigger] rs[i], sem(ev, slots, node_items(e)[i])),
         c.vx_built_from(rs),
@@ -41,6 +48,7 @@ pub proof fn lemma_items(ev: &Evaluator<'_>, slots: SlotEnv, e: Expr, rs: Seq<Re
         },
     }
 {
+    broadcast use axiom_btreemap_order_ok;
     let len = rs.len();
     if forall|i: int| 0 <= i < rs.len() ==> (#[trigger] rs[i]) is Ok {
         lemma_items_prefix(ev, slots, e, rs, len);
@@ -59,6 +67,71 @@ pub proof fn lemma_items(ev: &Evaluator<'_>, slots: SlotEnv, e: Expr, rs: Seq<Re
         if !(err is RecursionLimit) {
             lemma_items_prefix(ev, slots, e, rs, i as nat);
             assert(agrees_pv(rs[i], sem(ev, slots, node_items(e)[i])));
+            if e.expr_kind is Record {
+                let m = *e.expr_kind->Record_0;
+                assert(m.order_ok());
+                assert(m@.dom().contains(m.key_order()[i]));
+                assert(node_items(e)[i] == m@[m.key_order()[i]]);
+            }
+            if sem_items(ev, slots, e, i as nat) is Stop {
+                lemma_items_stop(ev, slots, e, i as nat, len);
+            } else {
+                assert(sem_items(ev, slots, e, (i + 1) as nat) is Stop);
+                lemma_items_stop(ev, slots, e, (i + 1) as nat, len);
+            }
+        }
+    }
+}
+
+/// record literals: the per-attribute results (name, value) of the key-ordered scan
+pub open spec fn snd_results(rs: Seq<Result<(SmolStr, PartialValue)>>) -> Seq<Result<PartialValue>> {
+    Seq::new(rs.len(), |i: int| match rs[i] { Ok(p) => Ok::<PartialValue, EvaluationError>(p.1), Err(err) => Err::<PartialValue, EvaluationError>(err) })
+}
+pub proof fn lemma_items_rec(ev: &Evaluator<'_>, slots: SlotEnv, e: Expr, rs: Seq<Result<(SmolStr, PartialValue)>>, c: Result<Vec<(SmolStr, PartialValue)>>)
+    requires e.expr_kind is Record,
+        rs.len() == node_items(e).len(),
+        forall|i: int| 0 <= i < rs.len() ==> agrees_pv(#[trigger] snd_results(rs)[i], sem(ev, slots, node_items(e)[i])),
+        forall|i: int| 0 <= i < rs.len() && (#[trigger] rs[i]) is Ok ==> rs[i]->Ok_0.0 == e.expr_kind->Record_0.key_order()[i],
+        c.vx_built_from(rs),
+    ensures match c {
+        Err(err) => err is RecursionLimit || (sem_items(ev, slots, e, rs.len()) is Stop && agrees_pv(Err::<PartialValue, EvaluationError>(err), list_res(sem_items(ev, slots, e, rs.len())))),
+        Ok(v) => v@.len() == rs.len() && (forall|j: int| 0 <= j < rs.len() ==> (#[trigger] v@[j]).0 == e.expr_kind->Record_0.key_order()[j]) && match sem_items(ev, slots, e, rs.len()) {
+            ListRes::Stop(r) => r is Unk,
+            ListRes::Vals(ks) => ks.len() == rs.len() && forall|j: int| 0 <= j < rs.len() ==> (#[trigger] v@[j]).1 is Value && v@[j].1->Value_0.value == ks[j],
+        },
+    }
+{
+    broadcast use axiom_btreemap_order_ok;
+    let len = rs.len();
+    let rs2 = snd_results(rs);
+    if forall|i: int| 0 <= i < rs.len() ==> (#[trigger] rs[i]) is Ok {
+        assert forall|j: int| 0 <= j < len implies (#[trigger] rs2[j]) is Ok by { assert(rs[j] is Ok); }
+        lemma_items_prefix(ev, slots, e, rs2, len);
+        let v = c->Ok_0;
+        assert forall|j: int| 0 <= j < len implies (#[trigger] v@[j]).0 == e.expr_kind->Record_0.key_order()[j] by {
+            assert(rs[j] == Ok::<(SmolStr, PartialValue), EvaluationError>(v@[j]));
+        }
+        match sem_items(ev, slots, e, len) {
+            ListRes::Vals(ks) => {
+                assert forall|j: int| 0 <= j < len implies (#[trigger] v@[j]).1 is Value && v@[j].1->Value_0.value == ks[j] by {
+                    assert(rs[j] == Ok::<(SmolStr, PartialValue), EvaluationError>(v@[j]));
+                    assert(rs2[j] == Ok::<PartialValue, EvaluationError>(v@[j].1));
+                }
+            },
+            _ => {},
+        }
+    } else {
+        let err = c->Err_0;
+        let i = choose|i: int| 0 <= i < rs.len() && #[trigger] rs[i] == Err::<(SmolStr, PartialValue), EvaluationError>(err) && forall|j: int| 0 <= j < i ==> (#[trigger] rs[j]) is Ok;
+        if !(err is RecursionLimit) {
+            assert forall|j: int| 0 <= j < i implies (#[trigger] rs2[j]) is Ok by { assert(rs[j] is Ok); }
+            lemma_items_prefix(ev, slots, e, rs2, i as nat);
+            assert(rs2[i] == Err::<PartialValue, EvaluationError>(err));
+            assert(agrees_pv(rs2[i], sem(ev, slots, node_items(e)[i])));
+            let m = *e.expr_kind->Record_0;
+            assert(m.order_ok());
+            assert(m@.dom().contains(m.key_order()[i]));
+            assert(node_items(e)[i] == m@[m.key_order()[i]]);
             if sem_items(ev, slots, e, i as nat) is Stop {
                 lemma_items_stop(ev, slots, e, i as nat, len);
             } else {
